@@ -140,7 +140,10 @@ STRESS_PKGS = {
     "dnsforward": {"internal/dnsforward/zz_verif_C05_test.go": "harness/dnsforward/zz_verif_C05_test.go",
                    # crash search in a child process (client edit sequences; query log / statistics
                    # clears and configuration updates against constant flushing)
-                   "internal/dnsforward/zz_verif_C05crash_test.go": "harness/dnsforward/zz_verif_C05crash_test.go"},
+                   "internal/dnsforward/zz_verif_C05crash_test.go": "harness/dnsforward/zz_verif_C05crash_test.go",
+                   # round 4: static-lease hostnames from the admin API into PTR / A / AAAA answers (real dhcpd
+                   # server behind a real started Server, queries through the socket)
+                   "internal/dnsforward/zz_verif_C05lease_test.go": "harness/dnsforward/zz_verif_C05lease_test.go"},
     "dhcpd": {"internal/dhcpd/zz_verif_C05_test.go": "harness/dhcpd/zz_verif_C05_test.go"},
     "home": {"internal/home/zz_verif_C05_test.go": "harness/home/zz_verif_C05_test.go",
              "internal/home/zz_verif_common_test.go": "harness/home/zz_verif_common_test.go"},
@@ -171,7 +174,7 @@ def _stress(ctx, tbl, known, race, millis, seed, pkg="dnsforward"):
     env.update({"VERIF_SEED": str(seed), "VERIF_OUT": outdir, "VERIF_C05_MS": str(millis),
                 "GORACE": "log_path=%s halt_on_error=0" % os.path.join(outdir, "race")})
     env.setdefault("VERIF_C05_REENTRANT", "1" if _reentrant(tbl) else "0")
-    cmd = ["go", "test", "-overlay", ov, "-tags", "verif", "-count=1", "-vet=off", "-run", "^TestVerifC05(Stress|Crash)$",
+    cmd = ["go", "test", "-overlay", ov, "-tags", "verif", "-count=1", "-vet=off", "-run", "^TestVerifC05(Stress|Crash|Lease)$",
            "-timeout", "%ds" % (millis // 1000 + 240)]
     if race:
         cmd.append("-race")
@@ -184,6 +187,7 @@ def _stress(ctx, tbl, known, race, millis, seed, pkg="dnsforward"):
     rp = os.path.join(outdir, "c05_stress.json")
     if pkg == "dnsforward" and os.path.exists(rp):
         stats["crash_search"] = _crash_search(ctx, outdir, seed, out)
+        stats["lease_answers"] = _lease_answers(ctx, outdir, seed, out)
     if not os.path.exists(rp):
         # the process died: unrecoverable runtime error (e.g. concurrent map read and map write)
         m = re.search(r"(fatal error: [^\n]*|panic: [^\n]*)", out)
@@ -332,6 +336,49 @@ def _crash_search(ctx, outdir, seed, out):
     return res
 
 
+def _lease_answers(ctx, outdir, seed, out):
+    """TestVerifC05Lease (harness/dnsforward/zz_verif_C05lease_test.go): static-lease add / update /
+    remove with hostile hostnames through the real dhcpd handlers, then PTR / A / AAAA queries through
+    the socket of a real Server wired to that dhcpd server.  A query without a reply whose response
+    does not pack in-process, or a reply that does not unpack, is a failure; replay = the journal of
+    admin requests before the query."""
+    rp = os.path.join(outdir, "c05_lease.json")
+    if not os.path.exists(rp):
+        ctx.fail("harness", "C05 lease harness left no report (c05_lease.json)", detail=out[-3000:])
+        return {"ran": False}
+    rep = json.load(open(rp))
+    res = {"ran": True}
+    res.update({k: rep.get(k) for k in ("admin_ops", "admin_ops_accepted", "queries", "ptr_answers_from_leases", "address_answers_from_leases",
+                                        "udp_timeouts_not_judged_alone", "sequential_hostnames", "concurrent_admin_ops", "http_statuses")})
+    journal = rep.get("first_failure_journal") or rep.get("journal_tail") or []
+    seen = set()
+    for i, m in enumerate(rep.get("malformed") or []):
+        kind = ("stored-name-invalid" if m.startswith("stored lease name") else
+                "name-exceeds-255-octets" if "exceeded 255" in m else
+                "cannot-be-packed" if "cannot be packed" in m else "malformed")
+        # one line per kind and hostname class is enough: the replay carries all of them
+        sig = (kind, re.sub(r"hostname #\d+ ", "", m)[:60])
+        if kind in seen:
+            continue
+        seen.add(kind)
+        ctx.fail("property-failure", ("the DHCP lease table holds a name that DNS answers cannot carry: " if kind == "stored-name-invalid" else
+                                      "query answered from a static lease without a well-formed response: ") + m[:600],
+                 finding_key="lease-answer:" + kind, failing_input_found=True,
+                 detail={"case": {"id": "lease-%s-%d" % (kind, seed), "seed": seed,
+                                  "desc": {"kind": "lease name from the admin API in a DNS answer", "seed": seed, "what": m,
+                                           "all_failures": rep.get("malformed"), "admin_requests_before": journal}}})
+    for i, p in enumerate(rep.get("panics") or []):
+        where = _first_repo_fn(p)
+        ctx.fail("property-failure", "panic under live reconfiguration (static leases): %s in %s" % (p.splitlines()[0][:300], where),
+                 finding_key="panic:" + where, failing_input_found=True,
+                 detail={"case": {"id": "lease-panic-%d-%d" % (seed, i), "seed": seed,
+                                  "desc": {"kind": "panic", "seed": seed, "panic": p, "admin_requests_before": journal}}})
+    if rep.get("stalled"):
+        ctx.fail("property-failure", "stall (static leases against DNS queries): workers did not finish", finding_key="stall", failing_input_found=True,
+                 detail={"case": {"id": "lease-stall-%d" % seed, "seed": seed, "desc": {"kind": "stall", "goroutines": rep["stalled"], "admin_requests_before": journal}}})
+    return res
+
+
 def _reverts(ctx):
     """Which of the two (lock table, -race stress) reports the revert of each repair commit;
     measured by corpus/C05/reverts.py, not re-measured per run."""
@@ -344,6 +391,11 @@ def _reverts(ctx):
 
 def extra(ctx):
     path = os.path.join(ctx.VERIF, "work", "locktable.json")
+    tag = os.environ.get("VERIF_WORK_TAG", "")
+    if tag and os.path.exists(os.path.join(ctx.VERIF, "work", tag, "locktable.json")):
+        # a tagged run (bin/try-seed, mutants) reads its own copy: the shared file may have been
+        # regenerated by another check in the meantime
+        path = os.path.join(ctx.VERIF, "work", tag, "locktable.json")
     if any(f["kind"] == "translator" for f in ctx.failures) or not os.path.exists(path):
         if not any(f["kind"] == "translator" for f in ctx.failures):
             ctx.fail("translator", "tools/locktable produced no table (work/locktable.json missing)")
@@ -428,7 +480,8 @@ def extra(ctx):
         cyc = gv.get("cycle") or [gv["site"]]
         # cyc[i] acquires a lock that cyc[i+1] holds; the last one acquires a lock cyc[0] holds
         acqs = [c["acquires"].rsplit(":", 1)[0] for c in cyc]
-        k = "%s<%s@%s" % (acqs[-1], acqs[0], cyc[0]["fn"])
+        # one key per cycle whatever site it was found from: the smallest over its rotations
+        k = min("%s<%s@%s" % (acqs[i - 1], acqs[i], cyc[i]["fn"]) for i in range(len(cyc)))
         if k in seen:
             continue
         seen.add(k)
@@ -514,7 +567,8 @@ def extra(ctx):
             and not any(k in (x.get("known_access_findings_reproduced") or {}) for x in stress))
             if any(x.get("race_detector") for x in stress) else "n/a (quick tier: no race detector)"),
         "evaluations": sum((x.get("queries") or 0) + (x.get("admin_ops") or 0)
-                           + sum((x.get("crash_search") or {}).get(k) or 0 for k in ("queries", "admin_ops", "client_edit_steps")) for x in stress),
+                           + sum((x.get("crash_search") or {}).get(k) or 0 for k in ("queries", "admin_ops", "client_edit_steps"))
+                           + sum((x.get("lease_answers") or {}).get(k) or 0 for k in ("queries", "admin_ops")) for x in stress),
         "samples": [{"root": a["root"], "fn": a["fn"], "field": a["field"], "write": a["write"], "held": a["held"], "pos": a["pos"]}
                     for a in accesses[:: max(1, len(accesses) // 5)][:5]],
     })
